@@ -3,7 +3,8 @@
 //
 // Configurations are input-free: a parameter-only presentation family (see verif_c12.rs) plus a
 // subgroup given by a pattern:  triv (no generators), all (every generator), first ([1]),
-// ab ([1,2]), pow<m> ([g^m] for every generator g), mix ([1,2,1] and [2]).
+// ab ([1,2]), pow<m> ([g^m] for every generator g), mix ([1,2,1] and [2]), second ([2]),
+// sqab ([1,1], [2,2], [1,2]), comm ([1,2,-1,-2]), inv ([-1,2], [2,2]).
 //
 //   verif_c11 dump <family> <param> <pattern>
 //       "G <nr_gens>", "R <relators>", "H <subgroup generators>", "T <rows> entries..." (as verif_c12),
@@ -55,6 +56,10 @@ fn subgroup(pattern: &str, n: usize) -> Vec<Vec<isize>> {
         "first" => vec![vec![1]],
         "ab" => vec![vec![1, 2]],
         "mix" => vec![vec![1, 2, 1], vec![2]],
+        "second" => vec![vec![2]],
+        "sqab" => vec![vec![1, 1], vec![2, 2], vec![1, 2]],
+        "comm" => vec![vec![1, 2, -1, -2]],
+        "inv" => vec![vec![-1, 2], vec![2, 2]],
         p if p.starts_with("pow") => {
             let m: usize = p[3..].parse().unwrap();
             (1..=n as isize).map(|g| vec![g; m]).collect()
